@@ -96,6 +96,9 @@ def predicate(ops, out):
             return f"panic in `{op}`"
         if o in ("err", "bad-op", "badsize", "blocked?"):
             return f"unexpected result `{o}` for `{op}`"
+        if "UNLOCKED" in o.split():
+            return (f"`{op}`: a Notifier callback ran while the queue's lock was NOT held — the counters the queue reports are then not "
+                    "updated atomically with its contents (another goroutine's report can overtake this one)")
         evs = o.split()
         for e in evs:
             if e.startswith("q="): qsum += int(e[2:])
@@ -268,7 +271,8 @@ RULE = ("random histories of new/init/add/read/readinflight/remove/replace/close
         "(capacity 1-5, QoS mix, expiry none/past/future/soon (+ `age` ops that let `soon` deadlines pass; mem backend), sizes around the read limit, in-flight expiry off/1ns/1h, 1-120 ops + final drain), "
         "each executed by the real code and by the Lean model and compared line by line; the Python predicate re-checks the property on the "
         "implementation's outputs. non-trivial = distinct history that fills the queue (a drop for `full`/`expiredinflight`) and later reads or re-initialises")
-ASSUME = ["sync.Mutex/Cond make each queue method atomic (one model step per call)",
+ASSUME = ["sync.Mutex/Cond make each queue method atomic (one model step per call); that the Notifier callbacks belong to that step is "
+          "checked on every callback of every case (verif hook VerifLocked: the queue's lock is held while the callback runs)",
           "time is symbolic: expiry past/future = now∓2h; in-flight expiry 1ns or 1h; `soon` = a deadline in the future that an `age` op "
           "moves into the past by back-dating the element the queue holds (mem backend keeps the caller's *queue.Elem)",
           "redis backend: stream queue-redis drives persistence/queue/redis over harness/internal/respfake (an in-process RESP2 server "
